@@ -1,7 +1,7 @@
 # -*- coding: utf-8 -*-
 import sys, os, argparse, traceback
 sys.path.insert(0, os.path.dirname(os.path.abspath(__file__)))
-from common import MachineryError
+from common import MachineryError, DoesNotReturn
 
 from registry import CHECKS
 REG = dict((k, (v["mod"], "run")) for k, v in CHECKS.items())
@@ -26,6 +26,17 @@ def main():
             import replay
             return replay.run(a.prop, a.replay)
         return getattr(mod, fn)(a.prop, a.tier, seed)
+    except DoesNotReturn as e:
+        # Returns.tla: every call into the library returns.  Every property quantifies over inputs for which the library reports,
+        # accepts, rejects or prints something: an input on which it never comes back violates the property at hand.
+        from common import Check
+        import json
+        c = Check(a.prop, a.tier, seed)
+        c.rule = "Returns.tla: Called ~> Returned, read on the recording as a processor-time budget per input (heartbeat of the driver)"
+        c.samples = [json.dumps(e.item)[:300]]
+        c.violation("%s|does-not-return|%s" % (a.prop, e.script), "the library does not return on this input (%s): %s" % (e.why, json.dumps(e.item)[:600]),
+                    {"driver": e.script, "item": e.item, "why": e.why, "list_key": e.list_key, "job_rest": e.job_rest})
+        return c.finish()
     except MachineryError as e:
         print("MACHINERY-FAILURE %s: %s" % (a.prop, e))
         return 2
